@@ -770,6 +770,117 @@ impl<T> HostMatcher<T> {
 }
 //@@ unrename IpMatcher
 
+// ================================================================ Router (src/router/mod.rs)
+//@@ rename SchemeMatcher Sub
+//@@ item src/router/mod.rs :: struct Router
+impl<T> Router<T> {
+    // the live rules are the routes stored in the matcher; the id -> route table mirrors them exactly
+    pub open spec fn live(&self, x: RouteRef<T>) -> bool { self.matcher.holds(x) }
+    pub open spec fn wf(&self) -> bool {
+        &&& self.matcher.wf()
+        &&& forall|k: String| #[trigger] self.routes@.contains_key(k) ==> rid(*self.routes@[k]) == k@ && self.matcher.holds(self.routes@[k])
+        &&& forall|x: RouteRef<T>| #[trigger] self.matcher.holds(x) ==> exists|k: String| self.routes@.contains_key(k) && self.routes@[k] == x
+    }
+}
+pub open spec fn live_plus<T>(o: Router<T>, nw: Router<T>, n: RouteRef<T>) -> bool {
+    forall|x: RouteRef<T>| #![trigger nw.live(x)] #![trigger o.live(x)] nw.live(x) <==> o.live(x) || x == n
+}
+pub proof fn lemma_router_uniq<T>(r: Router<T>)
+    requires r.wf(),
+    ensures forall|x: RouteRef<T>, k: String| #[trigger] r.matcher.holds(x) && rid(*x) == #[trigger] k@ ==> r.routes@.contains_key(k) && r.routes@[k] == x,
+{
+    axiom_string_ext();
+    assert forall|x: RouteRef<T>, k: String| #[trigger] r.matcher.holds(x) && rid(*x) == #[trigger] k@ implies r.routes@.contains_key(k) && r.routes@[k] == x by {
+        let k2 = choose|k2: String| r.routes@.contains_key(k2) && r.routes@[k2] == x;
+        assert(k2@ == k@);
+    }
+}
+impl<T> Router<T> {
+    //@@ fn src/router/mod.rs :: impl <T>Router<T> / fn from_arc_config -> r
+    //@| ensures r.wf(), r.routes@.len() == 0, forall|x: RouteRef<T>| !r.live(x),
+    //@| entry broadcast use group_hash_axioms; broadcast use axiom_string_key_model;
+
+    // a rule with a fresh id becomes live; nothing else changes
+    //@@ fn src/router/mod.rs :: impl <T>Router<T> / fn insert_route
+    //@| requires old(self).wf(), old(self).matcher.cnt() < usize::MAX, forall|x: RouteRef<T>| old(self).live(x) ==> rid(*x) != rid(route),
+    //@| ensures final(self).wf(), exists|n: RouteRef<T>| *n == route && #[trigger] live_plus(*old(self), *final(self), n),
+    //@|     final(self).routes@.len() == old(self).routes@.len() + 1,
+    //@| entry broadcast use group_hash_axioms; broadcast use axiom_string_key_model; broadcast use axiom_arc_cloned;
+    //@|     let ghost r0 = self.routes@; proof { axiom_string_ext(); lemma_router_uniq(*self); }
+    //@| exit proof {
+    //@|     let n = arc_route; let key = choose|key: String| key@ == rid(*n) && self.routes@ == r0.insert(key, n);
+    //@|     assert(!r0.contains_key(key)) by { if r0.contains_key(key) { assert(old(self).matcher.holds(r0[key])); } }
+    //@|     assert forall|k: String| #[trigger] self.routes@.contains_key(k) implies rid(*self.routes@[k]) == k@ && self.matcher.holds(self.routes@[k]) by { if k != key { assert(r0.contains_key(k)); assert(old(self).matcher.holds(r0[k])); } }
+    //@|     assert forall|x: RouteRef<T>| #[trigger] self.matcher.holds(x) implies exists|k: String| self.routes@.contains_key(k) && self.routes@[k] == x by {
+    //@|         if x == n { assert(self.routes@.contains_key(key) && self.routes@[key] == x); }
+    //@|         else { assert(old(self).matcher.holds(x)); let k = choose|k: String| r0.contains_key(k) && r0[k] == x; assert(self.routes@.contains_key(k) && self.routes@[k] == x); }
+    //@|     }
+    //@|     assert(*n == route && live_plus(*old(self), *self, n));
+    //@| }
+
+    // a removed rule is returned by the removal and is no longer live; removing an unknown id changes nothing
+    //@@ fn src/router/mod.rs :: impl <T>Router<T> / fn remove -> r
+    //@| requires old(self).wf(),
+    //@| ensures final(self).wf(),
+    //@|     forall|y: RouteRef<T>| #![trigger final(self).live(y)] final(self).live(y) <==> old(self).live(y) && rid(*y) != id@,
+    //@|     r matches Some(x) ==> old(self).live(x) && rid(*x) == id@,
+    //@|     r is None ==> forall|y: RouteRef<T>| #[trigger] old(self).live(y) ==> rid(*y) != id@,
+    //@|     final(self).routes@.len() == old(self).routes@.len() - (if r is Some { 1int } else { 0int }),
+    //@| entry broadcast use group_hash_axioms; broadcast use axiom_string_key_model; broadcast use axiom_borrow_str_contains; broadcast use axiom_borrow_str_maps; broadcast use axiom_borrow_str_removed;
+    //@|     let ghost r0 = self.routes@; proof { axiom_string_ext(); lemma_router_uniq(*self); }
+    //@| exit proof {
+    //@|     if exists|key: String| key@ == id@ && r0.contains_key(key) {
+    //@|         let key = choose|key: String| key@ == id@ && r0.contains_key(key);
+    //@|         assert(self.routes@ == r0.remove(key));
+    //@|         assert(old(self).matcher.holds(r0[key]) && rid(*r0[key]) == id@);
+    //@|         assert(holds_id(old(self).matcher, id@));
+    //@|         assert forall|k: String| #[trigger] self.routes@.contains_key(k) implies rid(*self.routes@[k]) == k@ && self.matcher.holds(self.routes@[k]) by { assert(r0.contains_key(k) && k != key); assert(old(self).matcher.holds(r0[k])); }
+    //@|         assert forall|x: RouteRef<T>| #[trigger] self.matcher.holds(x) implies exists|k: String| self.routes@.contains_key(k) && self.routes@[k] == x by {
+    //@|             assert(old(self).matcher.holds(x)); let k = choose|k: String| r0.contains_key(k) && r0[k] == x; assert(k != key); assert(self.routes@.contains_key(k) && self.routes@[k] == x);
+    //@|         }
+    //@|     } else {
+    //@|         assert(self.routes@ == r0);
+    //@|         assert forall|y: RouteRef<T>| #[trigger] old(self).live(y) implies rid(*y) != id@ by { if rid(*y) == id@ { let k = choose|k: String| r0.contains_key(k) && r0[k] == y; assert(k@ == id@); } }
+    //@|     }
+    //@| }
+
+    // batch removal: exactly the rules whose id is in the set stop being live
+    //@@ fn src/router/mod.rs :: impl <T>Router<T> / fn batch_remove
+    //@| requires old(self).wf(),
+    //@| ensures final(self).wf(), forall|y: RouteRef<T>| #![trigger final(self).live(y)] final(self).live(y) <==> old(self).live(y) && !ids_has(ids@, rid(*y)),
+    //@| closure `|id, _|` => `|id: &String, _v: &mut Arc<Route<T>>| -> (b: bool) ensures b == !ids@.contains(*id), *final(_v) == *old(_v)`
+    //@| entry broadcast use group_hash_axioms; broadcast use axiom_string_key_model;
+    //@|     let ghost r0 = self.routes@; proof { axiom_string_ext(); lemma_router_uniq(*self); }
+    //@| exit proof {
+    //@|     let r1 = self.routes@;
+    //@|     assert forall|k: String| #[trigger] r1.contains_key(k) implies r0.contains_key(k) && r1[k] == r0[k] && !ids@.contains(k) by {}
+    //@|     assert forall|k: String| r0.contains_key(k) && !#[trigger] r1.contains_key(k) implies ids@.contains(k) by {}
+    //@|     assert forall|k: String| #[trigger] r1.contains_key(k) implies rid(*r1[k]) == k@ && self.matcher.holds(r1[k]) by {
+    //@|         assert(old(self).matcher.holds(r0[k])); if ids_has(ids@, k@) { let k2 = choose|k2: String| k2@ == k@ && ids@.contains(k2); assert(k2 == k); }
+    //@|     }
+    //@|     assert forall|x: RouteRef<T>| #[trigger] self.matcher.holds(x) implies exists|k: String| r1.contains_key(k) && r1[k] == x by {
+    //@|         assert(old(self).matcher.holds(x)); let k = choose|k: String| r0.contains_key(k) && r0[k] == x;
+    //@|         if !r1.contains_key(k) { assert(ids@.contains(k)); assert(ids_has(ids@, rid(*x))); }
+    //@|     }
+    //@| }
+
+    // lookup by id: the live rule with that id, if any
+    //@@ fn src/router/mod.rs :: impl <T>Router<T> / fn get_route_by_id -> r
+    //@| requires self.wf(),
+    //@| ensures r matches Some(x) ==> self.live(x) && rid(*x) == id@, r is None ==> forall|y: RouteRef<T>| #[trigger] self.live(y) ==> rid(*y) != id@,
+    //@| entry broadcast use group_hash_axioms; broadcast use axiom_string_key_model; broadcast use axiom_borrow_str_contains; broadcast use axiom_borrow_str_maps; broadcast use axiom_arc_cloned;
+    //@|     proof { axiom_string_ext(); lemma_router_uniq(*self); }
+    //@| exit proof { if vf_ret is None { assert forall|y: RouteRef<T>| #[trigger] self.live(y) implies rid(*y) != id@ by { if rid(*y) == id@ { let k = choose|k: String| self.routes@.contains_key(k) && self.routes@[k] == y; assert(k@ == id@); } } } }
+
+    //@@ fn src/router/mod.rs :: impl <T>Router<T> / fn len -> r
+    //@| ensures r == self.routes@.len(),
+    //@| entry broadcast use group_hash_axioms; broadcast use axiom_string_key_model;
+    //@@ fn src/router/mod.rs :: impl <T>Router<T> / fn is_empty -> r
+    //@| ensures r == (self.routes@.len() == 0),
+    //@| entry broadcast use group_hash_axioms; broadcast use axiom_string_key_model;
+}
+//@@ unrename SchemeMatcher
+
 //@@ strlits
 } // verus!
 fn main() {}
